@@ -43,9 +43,23 @@ def main(argv=None):
         return 2
 
     if a.replay:
-        ctx = core.Ctx(prop_id, a.tier, seed)
         rep = json.load(open(a.replay))
+        if rep.get("kind") == "unproved":
+            print("replay %s: records a broken proof obligation / correspondence (no failing input); re-run ./check %s" % (
+                a.replay, prop_id))
+            return main([prop_id, "--tier", rep.get("tier", "quick")])
+        ctx = core.Ctx(prop_id, a.tier, seed)
         ok = mod.replay(ctx, rep)
+        if ok and rep.get("run"):
+            # deterministic re-generation: the same (seed, scale, tier) re-creates the same inputs on the real code
+            core.regen()
+            r = rep["run"]
+            ctx = core.Ctx(prop_id, r["tier"], r["seed"], scale=r["scale"], oracle_only=True)
+            mod.run(ctx)
+            same = [f for f in ctx.oracle_failures if f["cls"] == rep.get("cls") and f["what"] == rep.get("what")]
+            ok = not same
+            if same:
+                print("  reproduced: " + str(same[0]["what"])[:400])
         print("replay %s: %s" % (a.replay, "property holds on this input" if ok else "FAILS"))
         return 0 if ok else 1
 
@@ -125,7 +139,7 @@ def main(argv=None):
             path = os.path.join("replays", "%s-%s.json" % (prop_id, core.jhash(f0)))
             core.write_json(os.path.join(core.VERIF, path), dict(
                 property=prop_id, kind="failing-input", what=f0["what"], case=f0["case"], cls=f0["cls"],
-                broken_obligations=broken, seed=seed, tier=a.tier,
+                broken_obligations=broken, seed=seed, tier=a.tier, run=f0.get("run"),
                 how_to_replay="./check %s --replay %s" % (prop_id, path)))
             emit_violation(prop_id, path)
             print("  " + str(f0["what"])[:400])
